@@ -64,10 +64,12 @@ def id_correspondence(ck):
     base = base["ok"]
     cases = []
     for _ in range(ck.n(150, 1200)):
-        vals = rng.sample(ID_VALUES, 3) if rng.random() < 0.8 else [rng.randrange(0, USIZE_MAX + 1) for _ in range(3)]
+        low = [v for v in ID_VALUES if v <= ID_LIMIT]
+        u = rng.random()
+        vals = rng.sample(low, 3) if u < 0.4 else rng.sample(ID_VALUES, 3) if u < 0.8 else [rng.randrange(0, USIZE_MAX + 1) for _ in range(3)]
         if len(set(vals)) < 3:
             continue
-        tid = rng.choice(ID_VALUES) if rng.random() < 0.8 else rng.randrange(0, USIZE_MAX + 1)
+        tid = rng.choice(low) if u < 0.4 else rng.choice(ID_VALUES) if rng.random() < 0.8 else rng.randrange(0, USIZE_MAX + 1)
         cases.append((tuple(vals), tid))
     # the recorded witnesses of C12-N6 first
     cases = [((0, 1, 2), USIZE_MAX), ((USIZE_MAX, 1, 2), 0), ((0, 1, USIZE_MAX - 1), 0), ((0, 1, ID_LIMIT), ID_LIMIT), ((0, 1, ID_LIMIT + 1), 0)] + cases
